@@ -5,17 +5,22 @@ import os
 
 from .. import bashrt, complete, core, gram
 
-LEVEL = "translation_validation"
+LEVEL = "proof"
 CLAIM = ("Grammars `cmd <head>(v1 | ... | vk) next...;` whose value sets contain arbitrary prefix chains over {a,b,c} (plus unrelated "
          "values), heads with and without `=`, under | and ||, are compiled and run in a real bash: every allowed value typed in full "
          "and followed by a new word must lead to `next`; every proper prefix of every value (and every full value that is a prefix of "
          "another) must offer exactly the allowed values extending it; the longest value must not be cut short by a shorter one (the "
          "word after it is offered). Expected sets are the statement written outright over the value list (values extending the typed text; Props/C12.lean states it as `extending` and proves its properties). "
-         "The literal order the one-pass matcher relies on (decreasing length) is checked on the emitted table of every case.")
+         "The literal order the one-pass matcher relies on (decreasing length) is checked on the emitted table of every case. Proved over "
+         "the Lean model of the bash template (Model/BashRt.lean, which is compared with the real bash on every request of the run): "
+         "overlap_match — for every literal table listed by decreasing length, the matcher reads head ++ value as exactly that value "
+         "whatever prefix chains the other values form (false of the template before repair 4d96d3e); overlap_complete_stop — a proper "
+         "prefix of a value stops the matcher at the point where the values are expected, no shorter value consuming part of it first.")
 NOTE = ("Execution in bash only: fish, zsh and pwsh carry the same one-pass loop as text that cannot be run here (their tables are "
         "covered by C04). A fully typed value that is not a prefix of another value is a don't-care for the offered set (the property "
-        "speaks of partially typed values). The theorems overlap_match / overlap_complete over a BashRt model are open.")
-TECHNIQUE = "real bash execution on exhaustive prefixes of generated prefix-chain value sets against the Lean statement of the expected sets"
+        "speaks of partially typed values). Open: the theorem that the set offered after the stop is exactly the values extending the typed "
+        "text (overlap_complete: the level loop and the prefix filter of the model), decided per case by the run.")
+TECHNIQUE = "Lean 4 theorems over the model of the bash template's one-pass matcher + correspondence of that model with the real bash + real bash on exhaustive prefixes of generated prefix-chain value sets"
 DESIGN_REF = "§3 C12"
 
 
@@ -73,7 +78,18 @@ def run_case(args):
     res = bashrt.complete_batch(out, "cmd", reqs, os.path.join(workroot, f"b{idx % 64}"))
     if res is None:
         return args, "bash-failed", None
-    return args, "ok", (meta, res, nexts, out)
+    # (S) the Lean model of the template (Model/BashRt.lean) on the tables of this very script
+    class NoProbes:
+        outputs = {}
+    lines = [(wb, ws[1:-1], ws[-1]) for wb, ws in reqs]
+    model = None
+    br = complete.bashrt_request(NoProbes, out, lines)
+    if br is not None:
+        a = core.driver_batch([br], timeout=600)[0]
+        if a.startswith("ok "):
+            model = [None if part == "N" else ([] if part == "E" else sorted(set(core.unhexs(h) for h in part.split(","))))
+                     for part in a[3:].split(" ; ")]
+    return args, "ok", (meta, res, nexts, out, model)
 
 
 def run(ctx, proof):
@@ -95,7 +111,17 @@ def run(ctx, proof):
             if status == "bash-failed":
                 ctx.correspondence_breaks.append(("bash-run-failed", {"grammar": text}))
             continue
-        meta, res, nexts, script = payload
+        meta, res, nexts, script, model = payload
+        if model is not None and len(model) == len(res):
+            for (brc, reply, _l), mm, m in zip(res, model, meta):
+                ctx.count("template-model-compared")
+                got_b = None if brc != 0 else sorted(set(reply))
+                if got_b != mm:
+                    ctx.count("template-model-differs")
+                    if len(ctx.correspondence_breaks) < 5:
+                        ctx.correspondence_breaks.append(("bash-template-model", {"grammar": text, "request": list(m), "bash": got_b, "model": mm}))
+        else:
+            ctx.correspondence_breaks.append(("bash-template-model-unavailable", {"grammar": text}))
         # the order the one-pass matcher relies on
         import re
         for m in re.finditer(r'local -a literals=\(((?:"(?:\\.|[^"\\])*" ?)*)\)', script.decode("utf-8", "replace")):
